@@ -168,7 +168,7 @@ func TestVerifC07V3(t *testing.T) {
 		em.BeginCase(id, "pay-by-contract "+p)
 
 		hostUK := c12HostKey.PublicKey().UnlockKey()
-		exUC := contractUnlockConditions(hostUK, c12RenterKey.PublicKey().UnlockKey())
+		exUC := c12UC(hostUK, c12RenterKey.PublicKey().UnlockKey())
 		ids := newC12IDs(exUC.UnlockHash())
 		existing := types.FileContractRevision{ParentID: types.FileContractID{1, 2, 3}, UnlockConditions: exUC}
 		existing.FileContract = ids.build(c.ex)
